@@ -1,6 +1,7 @@
 package vuego
 
 import (
+	"bytes"
 	"context"
 	"io"
 	"strings"
@@ -332,12 +333,10 @@ func renderNodeWithContext(ctx VueContext, w io.Writer, node *html.Node, indent 
 			_, _ = w.Write([]byte("</" + tagName + ">\n"))
 		} else if tagName == "pre" {
 			// preformatted: no indentation or line breaks of our own inside
-			lead := ""
-			if firstChild.Type == html.TextNode {
-				lead = keepLeadingNewline(tagName, firstChild.Data)
-			}
-			_, _ = w.Write([]byte(spaces + "<" + tagName + renderAttrs(node.Attr) + ">" + lead))
-			renderPreformatted(w, node)
+			var body bytes.Buffer
+			renderPreformatted(&body, node)
+			_, _ = w.Write([]byte(spaces + "<" + tagName + renderAttrs(node.Attr) + ">" + keepLeadingNewline(tagName, body.String())))
+			_, _ = w.Write(body.Bytes())
 			_, _ = w.Write([]byte("</" + tagName + ">\n"))
 		} else {
 			_, _ = w.Write([]byte(spaces + "<" + tagName + renderAttrs(node.Attr) + ">\n"))
